@@ -669,7 +669,9 @@ func (idx *indexer) indexSince(txID uint64) error {
 
 			n := serializeIndexableEntry(b[:], txmd, e, kvmd)
 
-			idx._kvs[indexableEntries].K = targetKey
+			// the key may alias the buffers of idx.tx, which are reused when the
+			// next transaction of the bulk is read
+			idx._kvs[indexableEntries].K = append([]byte(nil), targetKey...)
 			idx._kvs[indexableEntries].V = b[:n]
 			idx._kvs[indexableEntries].T = txID + uint64(i)
 
@@ -734,7 +736,7 @@ func (idx *indexer) indexSince(txID uint64) error {
 
 					n := serializeIndexableEntry(b[:], txmd, prevEntry, kvmd.Bytes())
 
-					idx._kvs[indexableEntries].K = targetPrevKey
+					idx._kvs[indexableEntries].K = append([]byte(nil), targetPrevKey...)
 					idx._kvs[indexableEntries].V = b[:n]
 					idx._kvs[indexableEntries].T = txID + uint64(i)
 
